@@ -259,6 +259,7 @@ var pkgAliases = map[string]string{
 	"goneat":     modPath,
 	"stat":       "gonum.org/v1/gonum/stat",
 	"floats":     "gonum.org/v1/gonum/floats",
+	"graph":      "gonum.org/v1/gonum/graph",
 	"errors2":    "github.com/pkg/errors",
 	"rand":       "math/rand",
 	"atomic":     "sync/atomic",
